@@ -109,7 +109,7 @@ for n,(k,g,items,a) in types.items():
 idx={};low={};st=[];on=set();sccs=[];c=[0]
 def sc(v):
     idx[v]=low[v]=c[0];c[0]+=1;st.append(v);on.add(v)
-    for w in graph[v]:
+    for w in sorted(graph[v]):
         if w not in idx: sc(w);low[v]=min(low[v],low[w])
         elif w in on: low[v]=min(low[v],idx[w])
     if low[v]==idx[v]:
